@@ -50,7 +50,7 @@ CLAIMED = {
         note="Trusted: TLC; shadow clones (MH/Gibbs) and hook events hmc_end/nuts_end (HMC/NUTS) as the definition of 'state after t transitions'; bit-equality of outputs.",
         ref="DESIGN.md 4.2, 5/C09", technique="TLC model check of Runner.tla over all interleavings + replay of TLC-generated call histories + trace validation of rayon runs (Trace_Runner)"),
     "C07": dict(
-        text="Seeds.tla models generator ownership (seeded / OS / process-global generators, per-chain seed derivation modulo W, draw tokens) with two samplers running concurrently; TLC proves for every interleaving that a seeded sampler's output is the closed form of (kind, chains, seed) alone, that seeding never panics and that different seeds separate, and refutes the three pinned-tree policies (checked arithmetic, HMC on the global generator) as negative controls; Gen_Seeds enumerates scenarios (kind x chains x seed class incl. u64::MAX x pool size 1..16 x concurrent samplers x progress x repeat); a seeded sample is executed in child processes and TLC validates the result trace against a memo specification (same description => same bits, different description => different bits).",
+        text="Seeds.tla models generator ownership (seeded / OS / process-global generators, per-chain seed derivation modulo W, draw tokens) with two samplers running concurrently; TLC proves for every interleaving that a seeded sampler's output is the closed form of (kind, chains, seed) alone, that seeding never panics and that different seeds separate, and refutes the three pinned-tree policies (checked arithmetic, HMC on the global generator) as negative controls; Gen_Seeds enumerates scenarios (kind x chains x seed class incl. u64::MAX x pool size 1..16 x concurrent samplers x progress x repeat); a seeded sample is executed in child processes and TLC validates the result trace against a memo specification (same description => same bits, different description => different bits). Scenarios with pre = TRUE use the sampler before seeding it (unseeded run, start restored through the public fields): the closed form has no history argument.",
         note="Trusted: TLC; FNV hash of all output bits; W stands for 2^64. Scenario sample is not exhaustive (a seeded subset each run). A dedicated probe covers the recorded deadlock of NUTS::run under concurrent non-rayon autodiff threads (known finding).",
         ref="DESIGN.md 4.1, 5/C07", technique="TLC model check of Seeds.tla over all interleavings + TLC-enumerated scenarios run in child processes + trace validation (Trace_Seeds)"),
     "C08": dict(
